@@ -144,6 +144,9 @@ fn main() {
                     "workers_exit" => live::workers_exit((rounds / 5).max(12)),
                     "async_barrier" => live::async_barrier(rounds),
                     "clear_burst" => live::clear_burst((rounds / 10).max(10), false),
+                    "clear_held_ref" => live::clear_held_ref((rounds / 30).max(6)),
+                    "tiny_cleanup_interval" => live::tiny_cleanup_interval((rounds / 25).max(12)),
+                    "cleanup_interval_honoured" => live::cleanup_interval_honoured((rounds / 150).max(2)),
                     "async_clear_burst" => live::clear_burst((rounds / 10).max(10), true),
                     "async_ring_accounting" => live::async_ring_accounting((rounds / 30).max(8)),
                     "async_sweep_race" => live::async_sweep_race((rounds / 300).max(1)),
